@@ -117,8 +117,7 @@ func normalizeEndpoint(ctx context.Context, s *Schema, app *sysl.Application, ep
 	}
 
 	if ep.IsPubsub {
-		normalizeEvent(s, app, ep)
-		return nil
+		return normalizeEvent(ctx, s, app, ep)
 	}
 
 	var epEvent EndpointEvent
@@ -169,7 +168,7 @@ func normalizeEndpoint(ctx context.Context, s *Schema, app *sysl.Application, ep
 	return nil
 }
 
-func normalizeEvent(s *Schema, app *sysl.Application, event *sysl.Endpoint) {
+func normalizeEvent(ctx context.Context, s *Schema, app *sysl.Application, event *sysl.Endpoint) error {
 	s.Event = append(s.Event, Event{
 		AppName:   app.Name.Part,
 		EventName: event.Name,
@@ -180,6 +179,14 @@ func normalizeEvent(s *Schema, app *sysl.Application, event *sysl.Endpoint) {
 	}
 
 	normalizeEventMeta(s, app, event)
+
+	// an event has statements too (its own and the calls to its subscribers)
+	for i, stmt := range event.Stmt {
+		if err := normalizeStatement(ctx, s, app, event, stmt, []int{i}); err != nil {
+			return err
+		}
+	}
+	return nil
 }
 
 func normalizeStatement(
